@@ -205,5 +205,26 @@ CHECKS["C01"] = {
     "note": _GEN_NOTE + "; TLC cannot evaluate RSA/ECDSA/SHA-1: the arithmetic is the trusted projection (standard library; own math/big ECDSA for brainpool, "
             "self-checked constants), the specification decides who must verify under whom",
 }
+CHECKS["C19"] = {
+    "engine": "tlc-spec", "category": "exploration", "design_ref": "6/C19, 3 (ManipJudge.tla)",
+    "technique": "differential trace validation: twin certificates (same config, fixed serial, absolute validity, same imported key) with and without the "
+                 "manipulations block, decoded by the TLA+ grammar and compared field by field by ManipJudge.tla",
+    "text": "All 64 subsets of the six manipulation keys with values from {version 0,1,2,3,255; a real signature OID, 1.2.3.4, 2.999.1; !null, 1 byte, 300 bytes}, "
+            "on roots and on subordinates, with and without hashed key identifiers and a custom extension. Named fields must carry exactly the given value, "
+            "all other fields must equal the twin's, hashed key ids must follow manipulated key bits, the signature must verify over the manipulated TBS with "
+            "the real issuer key and the configured algorithm, outer manipulations must leave the TBS bytes identical.",
+    "note": _GEN_NOTE,
+}
+CHECKS["C13"] = {
+    "engine": "tlc-spec", "category": "exploration", "design_ref": "6/C13, 3 (HashJudge.tla)",
+    "technique": "single-field edit catalogue over both schemas; the stored #HASH lines of two real artifacts compared; 'would change the certificate' decided by "
+                 "TLC on the two produced certificates (HashJudge.tla); hash/content function check inside every Repo exploration",
+    "text": "Non-changes (other file name and directory, explicit alias, YAML block style with comments instead of JSON, keys in another order, profile renamed "
+            "with its reference) must keep the hash; each single-field edit of subject, serial, algorithms, unique ids, every validity shape with and without "
+            "from, each extension's presence/order/critical/content/raw, kind swaps that keep the JSON shape, each manipulation, and the profile's validity, "
+            "extensions, flags and subject attributes, over five base configurations, must change the hash whenever the two certificates the real pipeline "
+            "produces differ.",
+    "note": _GEN_NOTE + "; an edit that makes the configuration invalid (generation fails) is not judged; double edits are not generated",
+}
 for e in ENGINES:
     e["serves_properties"] = sorted(CHECKS)
